@@ -43,7 +43,7 @@ struct Entry {
 
 impl Entry {
     fn height(&self) -> Option<u64> {
-        self.valid.as_ref().map(|h| h.height().value())
+        self.valid.as_ref().map(|h| h.height())
     }
     fn hash(&self) -> Option<Vec<u8>> {
         self.valid.as_ref().map(|h| h.hash().as_bytes().to_vec())
@@ -80,7 +80,7 @@ fn alphabet(o: u64, extra_top: bool, seed: u64) -> Alphabet {
     let mut entries = vec![];
     for h in &chain {
         entries.push(Entry {
-            label: format!("valid@{}", h.height().value()),
+            label: format!("valid@{}", h.height()),
             resp: ok_resp(h),
             valid: Some(h.clone()),
             unvalidated: None,
@@ -345,9 +345,9 @@ fn oracle(req: &Req, alpha: &Alphabet, idxs: &[u8], got: &Result<Result<Vec<Exte
                     None => {
                         let unval = es.iter().any(|e| e.unvalidated.as_ref() == Some(h));
                         return if unval {
-                            v("accepted-unvalidated-header", format!("accepted a header (height {}) carried by an entry that is not a validated header", h.height().value()))
+                            v("accepted-unvalidated-header", format!("accepted a header (height {}) carried by an entry that is not a validated header", h.height()))
                         } else {
-                            v("accepted-header-not-in-response", format!("accepted header at height {} is not (or not that often) in the response", h.height().value()))
+                            v("accepted-header-not-in-response", format!("accepted header at height {} is not (or not that often) in the response", h.height()))
                         };
                     }
                 }
@@ -355,8 +355,8 @@ fn oracle(req: &Req, alpha: &Alphabet, idxs: &[u8], got: &Result<Result<Vec<Exte
             match &req.kind {
                 Kind::Height { start } => {
                     for (i, h) in r.iter().enumerate() {
-                        if start.checked_add(i as u64) != Some(h.height().value()) {
-                            let hs: Vec<u64> = r.iter().map(|h| h.height().value()).collect();
+                        if start.checked_add(i as u64) != Some(h.height()) {
+                            let hs: Vec<u64> = r.iter().map(|h| h.height()).collect();
                             return v("accepted-wrong-heights", format!("accepted heights {hs:?} for start {start}"));
                         }
                     }
@@ -416,7 +416,7 @@ fn eval(req: &Req, alpha: &Alphabet, idxs: &[u8], rep: &mut Report) {
     if rep.wants_sample() && key % 9973 == 7 {
         rep.sample(|| {
             json!({"case": case(), "result": match &got {
-            Ok(Ok(r)) => json!({"accepted_heights": r.iter().map(|h| h.height().value()).collect::<Vec<_>>()}),
+            Ok(Ok(r)) => json!({"accepted_heights": r.iter().map(|h| h.height()).collect::<Vec<_>>()}),
             Ok(Err(k)) => json!({"error": k}),
             Err(p) => json!({"panic": p}),
         }, "class": verdict.class})
